@@ -168,14 +168,15 @@ pub fn run(r: &mut Runner) -> &'static str {
     r.assumptions.push("R-V1 (harness/src/oracle/v1.rs) transcribes the statement of C01; its IPv4/IPv6/port grammars are cross-checked against std at start-up".into());
 
     let n = r.n(400_000, 10_000_000);
-    r.random("c01.grammar", n, 160, &gen_case, &judge);
+    r.random("c01.grammar", n, 160, &gen_case, &|x: &Vec<u8>, st: &mut Stats| crate::engine::in_arena(x, |v| judge(v, st)));
 
     // chains of related inputs judged back to back on one thread: the verdict on an input must not depend on what was
     // parsed before it (a line, then the same line with one more digit / one character less / another trailer / ...)
     let n = r.n(60_000, 1_500_000);
     r.random("c01.chains", n, 260, &|t| gen::gen_chain(t, &gen_case), &|c: &crate::engine::Chain, st: &mut Stats| {
+        // every member is parsed from this thread's reusable read buffer (same address, new contents)
         for x in &c.0 {
-            judge(x, st)?;
+            crate::engine::in_arena(x, |v| judge(v, st))?;
         }
         Ok(())
     });
